@@ -614,6 +614,8 @@ fn default_writer(
             sval::stream_display(&mut *stream, self.0.tpl())?;
             stream.record_value_end(None, &sval::Label::new(KEY_TPL))?;
 
+            let mut props_result = Ok(());
+
             let _ = self.0.props().dedup().for_each(|k, v| {
                 match (|| {
                     stream.record_value_begin(None, &sval::Label::new_computed(k.get()))?;
@@ -623,9 +625,17 @@ fn default_writer(
                     Ok::<(), sval::Error>(())
                 })() {
                     Ok(()) => ControlFlow::Continue(()),
-                    Err(_) => ControlFlow::Break(()),
+                    Err(e) => {
+                        props_result = Err(e);
+
+                        ControlFlow::Break(())
+                    }
                 }
             });
+
+            // If a property couldn't be written then the event can't be either
+            // Fail it as a whole instead of closing a half-written record
+            props_result?;
 
             stream.record_end(None, None, None)
         }
